@@ -125,6 +125,43 @@ fn observe(log: &mut impl Write, st: &Streams, g: ColorChoice, env: &[Option<OsS
         }
     }
     {
+        // the lock guards, a boxed writer and a borrowed file are stream kinds of their own
+        let l = std::io::stdout().lock();
+        let t = l.is_terminal();
+        let c = AutoStream::choice(&l);
+        let ad = anstream::_macros::to_adapted_string(&PROBE_TEXT, &l);
+        drop(l);
+        let a = anstream::stdout().lock();
+        let (cur, rt) = (a.current_choice(), a.is_terminal());
+        drop(a);
+        one("stdout_lock", t, c, cur, cur, rt, ad);
+        let l = std::io::stderr().lock();
+        let t = l.is_terminal();
+        let c = AutoStream::choice(&l);
+        let ad = anstream::_macros::to_adapted_string(&PROBE_TEXT, &l);
+        drop(l);
+        let a = anstream::stderr().lock();
+        let (cur, rt) = (a.current_choice(), a.is_terminal());
+        drop(a);
+        one("stderr_lock", t, c, cur, cur, rt, ad);
+        let b: Box<dyn Write> = Box::new(Vec::<u8>::new());
+        let c = AutoStream::choice(&b);
+        let ad = anstream::_macros::to_adapted_string(&PROBE_TEXT, &b);
+        let a = AutoStream::auto(b);
+        let (cur, rt) = (a.current_choice(), a.is_terminal());
+        one("box_dyn", false, c, cur, cur, rt, ad);
+        if let Some(tty) = &st.tty {
+            let mut f = tty.try_clone().expect("clone");
+            let t = f.is_terminal();
+            let r: &mut std::fs::File = &mut f;
+            let c = AutoStream::choice(&r);
+            let ad = anstream::_macros::to_adapted_string(&PROBE_TEXT, &r);
+            let a = AutoStream::auto(r);
+            let (cur, rt) = (a.current_choice(), a.is_terminal());
+            one("mut_ttyfile", t, c, cur, cur, rt, ad);
+        }
+    }
+    {
         let s = std::io::stderr();
         let t = s.is_terminal();
         let c = AutoStream::choice(&s);
